@@ -23,3 +23,4 @@ from . import c_midifile         # noqa: F401
 from . import b_midifile         # noqa: F401
 from . import c_files            # noqa: F401
 from . import b_files            # noqa: F401
+from . import c_ports            # noqa: F401
